@@ -309,6 +309,9 @@ class _FakeWatcher:
 
 
 DEFAULT = 32  # Need.DEFAULT.value, checked in World
+# files that exist under the static tree tree/ of every world and are not hashed yet: an amend_step naming one of
+# them as input gets a non-empty to_check, i.e. promoted hash jobs between the handler's two transactions
+TREE_FILES = [f"tree/u{i:02d}.txt" for i in range(24)] + [f"tree/sub/v{i:02d}.txt" for i in range(8)]
 
 
 class World:
@@ -416,6 +419,10 @@ def gen_request(rng, targets):
         "define_dup_step", "define_glob_match", "define_ok", "define_tree_product",
         "amend_inp_volatile", "amend_cycle", "amend_out_collision", "amend_ok", "amend_tree_ok",
         "amend_glob_match", "amend_vol_dir",
+        # inputs that need promoted hash jobs (unhashed matches of a static tree) + products rejected for every reason
+        "amend_tree_out_collision", "amend_tree_out_in_tree", "amend_tree_out_glob", "amend_tree_out_stepup",
+        "amend_tree_out_vol_overlap", "amend_tree_vol_dir", "amend_tree_vol_is_output", "amend_tree_out_is_dir",
+        "amend_tree_products_ok", "amend_tree_products_ok",
         "static_collision_nth", "static_bad_glob", "static_tree_then_collision", "static_ok",
         "static_tree_parent", "static_stepup_glob",
         "glob_product", "glob_ok", "glob_stepup",
@@ -463,6 +470,22 @@ def gen_request(rng, targets):
         return kind, "reject", a(wjob, good, [], ["aa_" + cmd + ".out"], ["voldir/"])
     if kind == "amend_ok":
         return kind, "accept", a(wjob, sorted([*good, "src.txt"]), ["EVD"], [cmd + ".aout"], [cmd + ".avol"])
+    if kind.startswith("amend_tree_") and kind != "amend_tree_ok":
+        tin = sorted(rng.sample(TREE_FILES, rng.randint(1, 3)) + (["tree/missing.txt"] if rng.random() < 0.3 else [])
+                     + (good if rng.random() < 0.5 else []))
+        okout, okvol = "aa_" + cmd + ".out", "aa_" + cmd + ".vol"
+        out, vol, expect = {
+            "amend_tree_out_collision": (sorted([okout, "o1.txt"]), [okvol], "reject"),
+            "amend_tree_out_in_tree": (sorted([okout, "tree/made.txt"]), [], "reject"),
+            "amend_tree_out_glob": (sorted([okout, "g/am.dat"]), [okvol], "reject"),
+            "amend_tree_out_stepup": (sorted([okout, ".stepup/x.txt"]), [], "reject"),
+            "amend_tree_out_vol_overlap": ([okout], [okout], "reject"),
+            "amend_tree_vol_dir": ([okout], ["voldir/"], "reject"),
+            "amend_tree_vol_is_output": ([], sorted([okvol, "o2.txt"]), "reject"),
+            "amend_tree_out_is_dir": (["sub2/"], [], "reject"),
+            "amend_tree_products_ok": ([okout], [okvol], "accept"),
+        }[kind]
+        return kind, expect, a(wjob, tin, ["EVT"] if rng.random() < 0.5 else [], out, vol)
     if kind == "amend_tree_ok":
         return kind, "accept", a(wjob, sorted(["tree/t1.txt", "tree/sub/t2.txt", "tree/missing.txt"]), [], [], [])
     s = lambda j, t, f, p: {"name": "declare_static", "args": [j, t, f, p]}  # noqa: E731
@@ -512,7 +535,7 @@ def _workdir():
                 fh.write("#!/usr/bin/env python3\n")
             os.chmod("plan.py", 0o755)
             os.makedirs("tree/sub")
-            for p in ("tree/t1.txt", "tree/sub/t2.txt", "tree/tt.txt"):
+            for p in ("tree/t1.txt", "tree/sub/t2.txt", "tree/tt.txt", *TREE_FILES):
                 with open(p, "w") as fh:
                     fh.write("content of " + p)
             yield d
@@ -757,6 +780,83 @@ def _interleaved(log):
                 return True
             cur = None
     return False
+
+
+# ---------------------------------------------------------------------------------------------
+# oracle A: amend_step whose inputs need promoted hash jobs, another step's request during that await
+# ---------------------------------------------------------------------------------------------
+
+
+@contextlib.contextmanager
+def _during_hash_await(hook, fired):
+    """Run `hook()` once, at the moment a handler starts awaiting Builder.run_promoted_hash_jobs (the only await of a
+    mutating handler other than the lock): between the two transactions of amend_step."""
+    from stepup.core.builder import Builder
+    orig = Builder.run_promoted_hash_jobs
+
+    async def wrapped(self, *a, **k):
+        if not fired:
+            fired.append(True)
+            await hook()
+        return await orig(self, *a, **k)
+
+    Builder.run_promoted_hash_jobs = wrapped
+    try:
+        yield
+    finally:
+        Builder.run_promoted_hash_jobs = orig
+
+
+def _amend_pairs(rng):
+    """(kind, amend request A of job 2, request B of another step that conflicts with or depends on A's products)."""
+    cmd = f"c{rng.randrange(10000)}"
+    tin = sorted(rng.sample(TREE_FILES, rng.randint(1, 3)))
+    out, vol = "aa_" + cmd + ".out", "aa_" + cmd + ".vol"
+    A = {"name": "amend_step", "args": [2, tin, ["EVT"], [out], [vol]]}
+    d = lambda j, c, i, o, v: {"name": "define_step", "args": [j, c, i, [], o, v, ".", DEFAULT, {}]}  # noqa: E731
+    kind = rng.choice(["B_claims_As_output", "B_claims_As_volatile", "B_reads_As_output", "B_static_As_output",
+                       "B_glob_over_As_output", "B_amends_same_tree_input", "B_unrelated"])
+    B = {
+        "B_claims_As_output": d(3, "b" + cmd, [], [out], []),
+        "B_claims_As_volatile": d(4, "b" + cmd, [], ["b" + cmd + ".out"], [vol]),
+        "B_reads_As_output": d(3, "b" + cmd, [out], ["b" + cmd + ".out"], []),
+        "B_static_As_output": {"name": "declare_static", "args": [1, [], [out], []]},
+        "B_glob_over_As_output": {"name": "register_glob", "args": [4, "aa_*.out", {}, []]},
+        "B_amends_same_tree_input": {"name": "amend_step", "args": [3, tin[:1], [], ["b" + cmd + ".out"], []]},
+        "B_unrelated": d(1, "b" + cmd, ["src.txt"], ["b" + cmd + ".out"], []),
+    }[kind]
+    return kind, A, B
+
+
+async def _amend_await_cases(ctx, ncase, fails):
+    """Request B is served while amend request A awaits its promoted hash jobs. The store must end as one of the two
+    sequential orders (twin worlds), with the replies of that order."""
+    rng = ctx.rng
+    for _ in range(ncase):
+        kind, A, B = _amend_pairs(rng)
+        fired, got_b = [], []
+        async with World() as w:
+            async def hook(w=w, B=B, got_b=got_b):
+                got_b.append(await w.call(B))
+            with _during_hash_await(hook, fired):
+                reply_a = await w.call(A)
+            final = w.dump(True)
+        ctx.case(("A", kind, json.dumps(A), json.dumps(B)), bool(fired))
+        ctx.count(f"A:{kind}:{'during_await' if fired else 'no_await_reached'}")
+        if not fired:
+            continue
+        orders = {}
+        for name, seq in (("A;B", (A, B)), ("B;A", (B, A))):
+            async with World() as w2:
+                reps = [await w2.call(r) for r in seq]
+                orders[name] = (w2.dump(True), reps if name == "A;B" else reps[::-1])
+        match = [n for n, (dump, reps) in orders.items() if dump == final and reps == [reply_a, got_b[0]]]
+        if not match:
+            store_only = [n for n, (dump, _) in orders.items() if dump == final]
+            fails.append(("amend-await", kind, {"amend": A, "other": B, "reply_amend": reply_a, "reply_other": got_b[0],
+                                                "sequential": {n: reps for n, (_, reps) in orders.items()},
+                                                "store_equals_order": store_only,
+                                                "diff_vs_amend_first": dump_diff(orders["A;B"][0], final)}))
 
 
 # ---------------------------------------------------------------------------------------------
@@ -1094,6 +1194,13 @@ def _report(ctx, fails):
                       f"{wit.get('lock_log', [])[:12]}) ended in a database that differs from their sequential "
                       f"application: {json.dumps(wit['diff'])[:700]}")
             name = "oracle-S:concurrent-equals-sequential"
+        elif what == "amend-await":
+            sig = f"serial:request-during-hash-await-of-amend_step:{kind}:matches-no-sequential-order"
+            detail = (f"{_short(wit['other'])} was served while {_short(wit['amend'])} awaited its promoted hash jobs: replies "
+                      f"amend={wit['reply_amend']} other={wit['reply_other']}; sequential replies {wit['sequential']}; the store "
+                      f"equals the store of order(s) {wit['store_equals_order']}; difference to amend-first: "
+                      f"{json.dumps(wit['diff_vs_amend_first'])[:600]}")
+            name = "oracle-A:amend-with-hash-await-equals-a-sequential-order"
         elif what == "inject":
             sig = f"inject:{wit['request']['name']}:store-changed-after-fault-inside-transaction"
             detail = (f"statement {wit['fault_at_statement']} of {wit['statements_of_request']} ({wit['statement']}) of request "
@@ -1140,6 +1247,7 @@ def _run_oracle(ctx, nsession, nconc, ndisc, deep=False):
         rest = [h for h in LIST_HANDLERS if h not in suspects]
         await _rollback_sessions(ctx, nsession, fails)
         await _inject_cases(ctx, max(4, nsession // 6), fails)
+        await _amend_await_cases(ctx, max(6, nsession // 5), fails)
         await _scaled_rollback(ctx, sizes, fails, only=rest, budget=None if deep else 25)
         await _concurrent_cases(ctx, nconc, fails)
         await _scaled_concurrent(ctx, sizes if deep else [s for s in sizes if s <= 100 or s in extra], fails,
